@@ -1,7 +1,9 @@
-(* Extraction of M-EXEC / M-PEND. ExtrOcamlBasic only: bool, option, unit,
+(* Extraction of M-EXEC / M-PEND / M-REUSE. ExtrOcamlBasic only: bool, option, unit,
    list, prod, sumbool, sumor map to OCaml's; nat, positive, N stay inductive. *)
 Require Extraction.
 Require Import ExtrOcamlBasic.
-From Atlas Require Import Base.Bytes Exec.ExecModel Exec.PendingModel Exec.RunModel Exec.StatusModel Exec.HistoryModel.
+From Atlas Require Import Base.Bytes Exec.ExecModel Exec.PendingModel Exec.RunModel Exec.StatusModel Exec.HistoryModel
+  Exec.ReuseModel.
 Extraction Language OCaml.
-Extraction "model.ml" run_all execute_n pending execute read_revisions report apply_plan migrate_set history.
+Extraction "model.ml" run_all execute_n pending execute read_revisions report apply_plan migrate_set history
+  session execute_to.
